@@ -776,6 +776,25 @@ def run_op(op, idx):
         term0 = sys.stdout
         mod = utils.import_module_from_path(arch + op.get('sep', '/') + inner)
         return {'modname': LOG.norm(str(getattr(mod, '__name__', None)))}
+    if kind == 'rewrite':
+        # somebody edits a module between two operations of the same process: a want changes,
+        # the size of the file and its modification time do not
+        w2 = worldmod.world_at(ST.scn['world'], ST.scn['ops'], idx + 1)
+        files, meta = worldmod.render_world(w2, ST.scn.get('env', {}))
+        changed = []
+        for rel, text in sorted(files.items()):
+            path = os.path.join(ST.pkgroot, rel)
+            with open(path) as f:
+                old = f.read()
+            if old != text:
+                st_ = os.stat(path)
+                with open(path, 'w') as f:
+                    f.write(text)
+                os.utime(path, ns=(st_.st_atime_ns, st_.st_mtime_ns))
+                changed.append((rel, len(old) == len(text)))
+        ST.meta = meta
+        LOG.add('rewrite', changed)
+        return {'changed': changed}
     if kind == 'setenv':
         # the environment REQUIRES is evaluated against changes between two operations
         seams.set_environment(op.get('environ', {}), op.get('argv', ['xdsim']))
